@@ -463,10 +463,49 @@ func (ex *Ex) dynamicCall(fr *Frame, st *State, ins ssa.Instruction, cc *ssa.Cal
 	if ex.uniformCall(fr, st, ins, cc, ft, args, k) {
 		return
 	}
+	// calls through a parameter declared `purefn`: results are functions of the arguments
+	if p, ok := cc.Value.(*ssa.Parameter); ok && fr.Ctr != nil {
+		for _, pn := range fr.Ctr.PureFns {
+			if pn == p.Name() {
+				ex.note("calls through parameter " + p.Name() + " of " + fr.Name + " are pure and deterministic (T6)")
+				ts := []*T{ft}
+				for i, a := range args {
+					ts = append(ts, ex.termOf(fr, st, a, cc.Args[i].Type()))
+				}
+				var rs []Val
+				for i := 0; i < sig.Results().Len(); i++ {
+					rt := sig.Results().At(i).Type()
+					rs = append(rs, Val{T: App(appSym(sig, i), ex.W.SortOf(rt), ts...)})
+				}
+				switch len(rs) {
+				case 0:
+					k(st, Val{})
+				case 1:
+					k(st, rs[0])
+				default:
+					k(st, Val{Tuple: rs})
+				}
+				return
+			}
+		}
+	}
 	ex.note("unmodelled call through function value (result havoced): " + cc.Value.Type().String())
 	res, _ := ex.freshResults("dyn", sig)
 	ex.flushFacts(st)
 	k(st, res)
+}
+
+// appSym: the symbol for the i-th result of a pure call through a function value of signature sig.
+func appSym(sig *types.Signature, i int) string {
+	q := func(p *types.Package) string { return p.Path() }
+	var ps, rs []string
+	for j := 0; j < sig.Params().Len(); j++ {
+		ps = append(ps, types.TypeString(deepUnalias(sig.Params().At(j).Type()), q))
+	}
+	for j := 0; j < sig.Results().Len(); j++ {
+		rs = append(rs, types.TypeString(deepUnalias(sig.Results().At(j).Type()), q))
+	}
+	return fmt.Sprintf("app$%s$%d", mangle("("+strings.Join(ps, ",")+")("+strings.Join(rs, ",")+")"), i)
 }
 
 // ---------------- builtins ----------------
